@@ -671,6 +671,18 @@ def check_C02(ctx):
             text = ' '.join(v)
             cases.append((b'm', {b'm': text.encode('latin1')}, {'text': {'m': text}}))
     cases += front.program_files(ctx, ctx.n(500, 6000), mutate_frac=0.85, multi_frac=0.3)
+    # macro definitions with boundary numbers in every numeric position, cut off at every token (deterministic family:
+    # end of file inside the header, the pattern, the body, before END DEFINE, and complete + use site)
+    NUMS = ['0', '1', '7', '2147483646', '2147483647', '99999999999', '9223372036854775808', '99999999999999999999']
+    for tmpl in ('DEFINE PRIO {n} foo <ID> AS x := $0 ; $1 END DEFINE foo a',
+                 'DEFINE foo <ID> <V> AS x := ${n} ; y := $0 END DEFINE foo a 1',
+                 'DEFINE PRIO 3 foo <P> ; AS #{n} := 1 ; $0 ; ${n} END DEFINE foo x := 1 ;',
+                 'DEFINE foo AS y := ${n} END DEFINE DEFINE bar <INT> AS $0 END DEFINE foo ; bar 2'):
+        for n_ in NUMS:
+            toks_ = tmpl.replace('{n}', n_).split(' ')
+            for cut in range(1, len(toks_) + 1):
+                t = ' '.join(toks_[:cut])
+                cases.append((b'm', {b'm': t.encode('latin1')}, {'text': {'m': t}}))
     # dictionary: identifiers the sources themselves treat specially (whole string literals of identifier shape)
     magic = source_dictionary()
     ctx.cov['dictionary'] = magic
